@@ -585,8 +585,18 @@ func renameInContract(ct *Contract, alias map[string]string) bool {
 				if _, plain := v.Fun.(*ast.Ident); !plain {
 					walk(v.Fun) // a bare name in call position is a spec builtin or a function (old(...), len(...)), never a renamed variable
 				}
+				if id, ok := v.Fun.(*ast.Ident); ok && id.Name == "typeis" && len(v.Args) == 2 {
+					walk(v.Args[0]) // the second argument is a type: a local that happens to share the type's name is not meant
+					return
+				}
 				for _, a := range v.Args {
 					walk(a)
+				}
+			case *ast.TypeAssertExpr:
+				walk(v.X) // x.(*T): T is a type name
+			case *ast.CompositeLit:
+				for _, el := range v.Elts {
+					walk(el) // T{...}: T is a type name
 				}
 			case *ast.KeyValueExpr:
 				walk(v.Value) // a struct literal's field key keeps its name
